@@ -214,7 +214,8 @@ theorem c08_unifiedBundle_content (h : Heap) (c : Nat) (g : Good h)
       nb = h1.conts.size ∧ (h'.cont nb).records = news ∧
       news.length = (placeMerged mp (h.cont c).records).length ∧
       (∀ p ∈ (placeMerged mp (h.cont c).records).zip news, recEq (h1.recCell p.1).r (h'.recCell p.2).r = true) ∧
-      (∀ r, r < h1.recs.size → h'.recCell r = h1.recCell r) ∧ h1.recs.size ≤ h'.recs.size := by
+      (∀ r, r < h1.recs.size → h'.recCell r = h1.recCell r) ∧ h1.recs.size ≤ h'.recs.size ∧
+      unifiedRecords.mergeAll h [] (groupsOf h c) = (h1, .ok mp) := by
   unfold unifiedBundle at hres
   have g1 := good_unifiedRecords g c
   have hsz := (C13.frameB_unifiedRecords 0 0 h c (Nat.zero_le _) (Nat.zero_le _)).rsize
@@ -226,7 +227,7 @@ theorem c08_unifiedBundle_content (h : Heap) (c : Nat) (g : Good h)
     | error err => simp at hres
     | ok rs =>
       simp only at hres
-      obtain ⟨mp, hrs, hgm, hframe, _⟩ := c08_unifiedRecords_content h c g.allInv1
+      obtain ⟨mp, hrs, hgm, hframe, _, hmaeq⟩ := c08_unifiedRecords_content h c g.allInv1
         (fun e he r hr => ⟨g.wf.inRange c r (g.wf.idxIn c e he r hr), (stored_of_normal_extra (g.normal.2 r) (g.extra r)).pairs⟩) h1 rs hur
       obtain ⟨a1, _, _, _, a5⟩ := allocCont_fresh h1 false (h1.cont c).id [] none
       have hn2 := allInv1_allocCont h1 g1.allInv1 false (h1.cont c).id none
@@ -261,7 +262,7 @@ theorem c08_unifiedBundle_content (h : Heap) (c : Nat) (g : Good h)
         have := (C13.frameB_addRecords 0 0 nb' (Nat.zero_le _) rs h2 (Nat.zero_le _)).rsize
         rw [f1, a5] at this
         exact this
-      refine ⟨h1, mp, news, hgm, hframe, a1, by rw [f2, hempty]; simp, by rw [flen, hrs], ?_, ?_, hgrow⟩
+      refine ⟨h1, mp, news, hgm, hframe, a1, by rw [f2, hempty]; simp, by rw [flen, hrs], ?_, ?_, hgrow, hmaeq⟩
       · intro p hp
         rw [← hrs] at hp
         have := (f3 p hp).1
@@ -280,7 +281,8 @@ theorem c08_unifiedBundle_reachable (ops : List HOp) (hops : ∀ op ∈ ops, op.
       nb = h1.conts.size ∧ (h'.cont nb).records = news ∧
       news.length = (placeMerged mp (h.cont c).records).length ∧
       (∀ p ∈ (placeMerged mp (h.cont c).records).zip news, recEq (h1.recCell p.1).r (h'.recCell p.2).r = true) ∧
-      (∀ r, r < h1.recs.size → h'.recCell r = h1.recCell r) ∧ h1.recs.size ≤ h'.recs.size := by
+      (∀ r, r < h1.recs.size → h'.recCell r = h1.recCell r) ∧ h1.recs.size ≤ h'.recs.size ∧
+      unifiedRecords.mergeAll h [] (groupsOf h c) = (h1, .ok mp) := by
   obtain ⟨a, b, w⟩ := reachable_invariants ops hops
   exact c08_unifiedBundle_content _ c ⟨a, b, w, hnc⟩ h' nb hres
 
